@@ -927,6 +927,9 @@ ares_status_t ares_requeue_query(ares_query_t *query, const ares_timeval_t *now,
 {
   ares_channel_t *channel   = query->channel;
   size_t          max_tries = ares_slist_len(channel->servers) * channel->tries;
+  /* Remember which server this attempt was on, if it was a probe of a failed
+   * server its probe_pending flag must be cleared when the query ends */
+  ares_server_t  *server    = (query->conn != NULL) ? query->conn->server : NULL;
 
   ares_query_remove_from_conn(query);
 
@@ -950,7 +953,7 @@ ares_status_t ares_requeue_query(ares_query_t *query, const ares_timeval_t *now,
     query->error_status = ARES_ETIMEOUT;
   }
 
-  end_query(channel, NULL, query, query->error_status, dnsrec);
+  end_query(channel, server, query, query->error_status, dnsrec);
   return ARES_ETIMEOUT;
 }
 
